@@ -2,6 +2,9 @@
 From NG Require Import VM.Model Codec.BigintProofs VM.LimitsData.
 Open Scope Z_scope.
 
+Section WithPtr.
+Context {PS : PtrSpec}.
+
 (* ---------- projections and setters ---------- *)
 Lemma d_ok_es d : d_ok d -> Forall item_ok (d_es d). Proof. intros H; apply H. Qed.
 Lemma d_ok_heap d : d_ok d -> heap_ok (d_heap d). Proof. intros H; apply H. Qed.
@@ -152,18 +155,8 @@ Definition res_ok (r : option dres) : Prop :=
   | _ => True
   end.
 
-Create HintDb vmok.
-#[export] Hint Resolve set_es_ok set_mem_ok set_heap_ok set_refs_ok set_local_ok set_args_ok set_static_ok
-  d_add_ok d_remove_ok d_remove_list_ok d_add_list_ok push_noref_ok push_ok push_counted_ok push_new_buffer_ok
-  alloc_ok hset_ok d_ok_es d_ok_heap d_ok_local d_ok_args d_ok_static
-  Forall_firstn Forall_skipn Forall_remove_nth Forall_set_nth Forall_repeat Forall_removelast Forall_rev' Forall_app'
-  map_add_ok entries_remove_ok entries_fst_ok entries_snd_ok msg_out_of_range_ok : vmok.
-#[export] Hint Constructors Forall : vmok.
-#[export] Hint Extern 1 (item_ok _) => exact I : vmok.
-#[export] Hint Extern 1 (item_ok (IBytes _)) => simpl : vmok.
-#[export] Hint Extern 1 (cell_ok _) => simpl : vmok.
-#[export] Hint Extern 1 (slot_ok (Some _)) => simpl : vmok.
-#[export] Hint Extern 2 (zlen _ <= MaxItemSize) => (vm_compute; discriminate) : vmok.
+End WithPtr.
+
 
 Ltac dok :=
   lazymatch goal with
